@@ -21,9 +21,14 @@ fn opts() -> Opts {
     o.delims = vec![("<", ">"), ("<!-- <", "> -->"), ("/* <", "> */"), ("[[", "]]"), ("「", "」"), ("|", "|")];
     o.inline = true;
     o.nested_unwrap = true;
-    o.tags_on_wrappers = false;
-    o.blank_wrappers = false;
+    // tags on wrapper lines and blank wrapper lines are generated; they are known finding KF3 (excluded by
+    // signature while it is listed)
+    o.tags_on_wrappers = true;
+    o.blank_wrappers = true;
     o.unwrap_tags_shared = false;
+    o.wrapper_tag_pct = 5;
+    o.blank_wrapper_pct = 4;
+    o.straddle_pct = 2;
     o.first_line_empty_pct = 5;
     o
 }
@@ -93,10 +98,24 @@ pub fn kf2_signature(r: &astgen::Rendered, keep: &[bool]) -> bool {
 }
 
 pub fn oracle(c: &HistoryCase, obs: &mut Obs, kf2: bool) -> Verdict {
+    oracle_kf(c, obs, kf2, true)
+}
+
+pub fn oracle_kf(c: &HistoryCase, obs: &mut Obs, kf2: bool, kf3: bool) -> Verdict {
     let r = astgen::render(&c.doc, &c.spell);
     if let Err(why) = astgen::in_domain(&r, &opts().domain()) {
         obs.excluded(why);
         return Verdict::Pass;
+    }
+    // KF3 signature: a tag sits on a wrapper line of an unwrap-block, or a wrapper line is blank
+    if kf3 {
+        let mut strict = opts().domain();
+        strict.tags_on_wrappers = false;
+        strict.blank_wrappers = false;
+        if let Err(why) = astgen::in_domain(&r, &strict) {
+            obs.excluded(&format!("KF3:{why}"));
+            return Verdict::Pass;
+        }
     }
     if kf2 && c.chain.iter().any(|a| kf2_signature(&r, &astgen::truth(&r, a).keep)) {
         obs.excluded("KF2:inline-end-followed-by-removed-line");
@@ -186,18 +205,22 @@ pub fn oracle(c: &HistoryCase, obs: &mut Obs, kf2: bool) -> Verdict {
 
 pub fn check(ctx: &mut Ctx) {
     ctx.rule = "cases = (AST document, history): a history is a chain of 1..4 configurations with non-decreasing time index and growing target set; the interpreter applies clean step by step. Invariants after every step: (1) clean(cur, cfg) == cur exactly; (2) nows(cur) == nows(clean(original, cfg)); (3) list(cur, cfg) is empty and no `#id#` of an element whose opening tag lies in a removable extent under cfg remains. Non-trivial = chain length >= 2 and some later step makes more elements ready.".into();
-    ctx.assume("delimiter strings occur only as parts of tags; tags do not sit on unwrap wrapper lines and wrapper lines are non-blank code (otherwise step-wise and direct cleaning differ by the definition of unwrap-block itself)");
+    ctx.assume("delimiter strings occur only as parts of tags");
     for c in ["chain-length=2", "chain-length=3", "chain-length=4", "every-step-removes-more", "unwrap-whose-inner-lines-were-removed-earlier"] {
         ctx.require_class(c);
     }
     let kf2 = ctx.is_known("inline-end-followed-by-removed-line");
+    let kf3 = ctx.is_known("tag-on-or-blank-wrapper-line");
+    if kf3 {
+        ctx.assume("known finding KF3 (a tag sits on a wrapper line of an unwrap-block, or a wrapper line is blank: which line is 'the line after the tag' then depends on what earlier runs removed) is excluded by its input signature and counted");
+    }
     if kf2 {
         ctx.assume("known finding KF2 (a removed region at the end of a code line followed by a line that starts with another removed region) is excluded by its input signature and counted");
     }
     ctx.replay_corpus(replay);
-    ctx.run_known_witnesses(|_sub, case, obs| replay_case::<HistoryCase, _>(case, obs, |c, obs| oracle(c, obs, false)));
-    ctx.random("histories", 420, 150_000, 10_000_000, gen, move |c, obs| oracle(c, obs, kf2));
-    ctx.reshrink::<HistoryCase, _, _>("histories", move |c, obs| oracle(c, obs, kf2), |c, fails| {
+    ctx.run_known_witnesses(|_sub, case, obs| replay_case::<HistoryCase, _>(case, obs, |c, obs| oracle_kf(c, obs, false, false)));
+    ctx.random("histories", 420, 300_000, 12_000_000, gen, move |c, obs| oracle_kf(c, obs, kf2, kf3));
+    ctx.reshrink::<HistoryCase, _, _>("histories", move |c, obs| oracle_kf(c, obs, kf2, kf3), |c, fails| {
         // fewer steps first, then a smaller document
         let mut cur = c.clone();
         loop {
@@ -225,8 +248,9 @@ pub fn check(ctx: &mut Ctx) {
 
 pub fn replay(_sub: &str, case: &Value, obs: &mut Obs) -> Result<Verdict, String> {
     let kf2 = load_known("C19").iter().any(|k| k.signature == "inline-end-followed-by-removed-line");
+    let kf3 = load_known("C19").iter().any(|k| k.signature == "tag-on-or-blank-wrapper-line");
     replay_case::<HistoryCase, _>(case, obs, |c, obs| {
         obs.eval();
-        oracle(c, obs, kf2)
+        oracle_kf(c, obs, kf2, kf3)
     })
 }
